@@ -20,6 +20,8 @@ func init() {
 			{ID: "C11-R4", Doc: "pointer-free kind tables agree", Run: c11r4},
 			{ID: "C11-R5", Doc: "zeroing writes exactly n elements", Run: c11r5},
 			{ID: "C11-R6", Doc: "constructors take the smallest column capacity; Ensure(n) yields exactly n rows", Run: c11r6},
+			{ID: "C11-R7", Doc: "a frame parameter is replaced by a frame made from another frame only where it is known to be the zero frame (the result keeps the destination's key prefix)", Run: c11r7},
+			{ID: "C11-R8", Doc: "Copy moves rows element by element only when a single row is copied (overlapping views are copied with memmove semantics)", Run: c11r8},
 			{ID: "C07-R6", Doc: "the decoder writes only the rows of the destination view (shared)", Run: c07r6},
 		},
 	})
